@@ -80,54 +80,65 @@ impl TimeZone {
     }
 
     pub(crate) fn to_local_time_type(&self, timestamp: i64) -> LocalTimeType {
-        match self.transitions[..] {
-            [] => match &self.extra_rule {
-                Some(rule) => match rule {
-                    TransitionRule::Fixed(local_time_type) => local_time_type.clone(),
-                    TransitionRule::Alternate(altt) => {
-                        let std_end_timestamp = altt.local_std_end_timestamp(timestamp);
-                        let dst_end_timestamp = altt.local_dst_end_timestamp(timestamp);
+        // At or after the last transition (or without any transition), the footer's rule applies
+        let after_last_transition = match self.transitions.last() {
+            Some(last) => last.unix_leap_time <= timestamp,
+            None => true,
+        };
 
-                        let std_end_unix = std_end_timestamp - altt.std.utoff as i64;
-                        let dst_end_unix = dst_end_timestamp - altt.dst.utoff as i64;
+        if after_last_transition {
+            return match (&self.extra_rule, self.transitions.last()) {
+                (Some(rule), _) => Self::rule_to_local_time_type(rule, timestamp),
+                (None, Some(last)) => self.local_time_types[last.local_time_type_index].clone(),
+                (None, None) => self.local_time_types[0].clone(),
+            };
+        }
 
-                        match timestamp {
-                            // std end is before dst end
-                            // timestamp is after time changed to dst
-                            timestamp
-                                if std_end_unix < dst_end_unix
-                                    && std_end_unix <= timestamp
-                                    && timestamp < dst_end_unix =>
-                            {
-                                altt.dst.clone()
-                            }
-                            // std is before dst
-                            // timestamp is in std range
-                            _ if std_end_unix < dst_end_unix => altt.std.clone(),
-                            // dst end is before std end
-                            // timestamp is after time changed to std
-                            timestamp
-                                if dst_end_unix < std_end_unix
-                                    && dst_end_unix <= timestamp
-                                    && timestamp < std_end_unix =>
-                            {
-                                altt.std.clone()
-                            }
-                            _ => altt.dst.clone(),
-                        }
+        // The type of the latest transition at or before the timestamp
+        let mut local_time_type_index = 0;
+        for transition in self.transitions.iter().rev() {
+            if transition.unix_leap_time <= timestamp {
+                local_time_type_index = transition.local_time_type_index;
+                break;
+            }
+        }
+        self.local_time_types[local_time_type_index].clone()
+    }
+
+    fn rule_to_local_time_type(rule: &TransitionRule, timestamp: i64) -> LocalTimeType {
+        match rule {
+            TransitionRule::Fixed(local_time_type) => local_time_type.clone(),
+            TransitionRule::Alternate(altt) => {
+                let std_end_timestamp = altt.local_std_end_timestamp(timestamp);
+                let dst_end_timestamp = altt.local_dst_end_timestamp(timestamp);
+
+                let std_end_unix = std_end_timestamp - altt.std.utoff as i64;
+                let dst_end_unix = dst_end_timestamp - altt.dst.utoff as i64;
+
+                match timestamp {
+                    // std end is before dst end
+                    // timestamp is after time changed to dst
+                    timestamp
+                        if std_end_unix < dst_end_unix
+                            && std_end_unix <= timestamp
+                            && timestamp < dst_end_unix =>
+                    {
+                        altt.dst.clone()
                     }
-                },
-                None => self.local_time_types[0].clone(),
-            },
-            _ => {
-                let mut local_time_type_index = 0;
-                for transition in self.transitions.iter().rev() {
-                    if transition.unix_leap_time < timestamp {
-                        local_time_type_index = transition.local_time_type_index;
-                        break;
+                    // std is before dst
+                    // timestamp is in std range
+                    _ if std_end_unix < dst_end_unix => altt.std.clone(),
+                    // dst end is before std end
+                    // timestamp is after time changed to std
+                    timestamp
+                        if dst_end_unix < std_end_unix
+                            && dst_end_unix <= timestamp
+                            && timestamp < std_end_unix =>
+                    {
+                        altt.std.clone()
                     }
+                    _ => altt.dst.clone(),
                 }
-                self.local_time_types[local_time_type_index].clone()
             }
         }
     }
